@@ -18,7 +18,7 @@ EXPLANATION = (
     "R01.7: cache table size/mask/index forms."
 )
 THOROUGH_CONFIGS = [C.NO_CHARWISE, C.NO_CACHE, C.NO_FIX, C.NO_TAG, C.MINIMAL, C.SIMD]
-QUICK_CONFIGS = [C.NO_CACHE]
+QUICK_CONFIGS = [C.NO_CACHE, C.NO_CHARWISE, C.NO_FIX, C.NO_TAG, C.MINIMAL]
 NOT_DECIDED = [
     "merged weight arithmetic (merge, add_assign) and the add_score inner loops (fixed/variable/negative positions)",
     "content of the 8^(2W) cache table and of str_to_char_pos", "daachorse match semantics",
@@ -59,7 +59,7 @@ def run(chk):
     chk.rule("R09.1", "Predictor::new hands every scorer its own tables and window size (shared with C09)")
     _c09w.r091_predictor(chk, w)
     from . import ctors as _ctors
-    _ctors.run(chk, w, only=["PositionalWeight::new", "with_boundary"])
+    _ctors.run(chk, w, only=["PositionalWeight::new", "with_boundary", "From<vaporetto::predictor::PositionalWeight>>::from"])
     for rid, txt in (("R01.1", "threshold table: >0 -> WordBoundary, else NotWordBoundary, one store per boundary, never Unknown"),
                      ("R01.2", "padding/resize/zip/accessor forms"), ("R01.3", "scorer pipeline and dispatcher totality"),
                      ("R01.4", "daachorse iterator <-> merged weights pairing"), ("R01.5", "add_score position and offset forms"),
@@ -280,7 +280,9 @@ def pairing(chk, w):
             if c.startswith("daachorse::") and "::find" in c and c.endswith("iter"):
                 if "trainer::" in bd.fn:
                     continue   # feature extraction of the trainers is C10's subject (R10.3 dict:all-matches), not the predictor's
-                users.setdefault(bd.fn, []).append((bb, c.split("::")[-1]))
+                # `*_from_iter(bytes)` is the same iterator over a byte iterator instead of a slice
+                nm = c.split("::")[-1]
+                users.setdefault(bd.fn, []).append((bb, nm[:-len("_from_iter")] if nm.endswith("_iter_from_iter") else nm))
     for fn, lst in sorted(users.items()):
         b = w.body(fn)
         chk.fn(fn)
